@@ -182,6 +182,13 @@ def _run_chunk(exe, script_path, trace_path, episodes, wall_timeout, lo, hi):
                             % ((last or {}).get("ep", start), script_path))
         if p.returncode < 0 or p.returncode in (134, 139):
             sig = -p.returncode if p.returncode < 0 else p.returncode - 128
+            # Rust aborts when the allocator returns null. A request the machine could be expected to serve
+            # (up to 64 GiB) that fails says something about the machine, not about sux; an absurd request
+            # (a length computed by an overflow, say) stays an `abort` event.
+            m = re.search(r"memory allocation of (\d+) bytes failed", p.stderr or "")
+            if m and int(m.group(1)) <= (1 << 36):
+                raise ToolError("executor ran out of memory (allocation of %s bytes failed) in episode %s of %s"
+                                % (m.group(1), (last or {}).get("ep", start), script_path))
             if last is None or last["ep"] < start:
                 raise ToolError("executor died before its first event: %s" % p.stderr[-2000:])
             e, s = last["ep"], last["seq"]
